@@ -574,7 +574,8 @@ class Executor:
             return
         st.frames = []
         self.stats['terminals'] += 1
-        key = (st.status, self.canon_value(st, st.result), st.extras, st.flags, st.inexact, st.nondet)
+        rkey = self.canon_value(st, st.result) if st.status == 'ok' else st.result
+        key = (st.status, rkey, st.extras, st.flags, st.inexact, st.nondet)
         e = self.terminals.get(key)
         if e is None:
             self.terminals[key] = st
